@@ -3,6 +3,7 @@
 package libexec
 
 import (
+	"bytes"
 	"fmt"
 	"runtime/debug"
 
@@ -259,4 +260,79 @@ func CompareTraces(lib []Step, libOK bool, r interp.Result) error {
 		return fmt.Errorf("both accept but library ran %d steps, rules %d", len(lib), len(r.Trace))
 	}
 	return nil
+}
+
+// Reuse runs programs on ONE set of library objects that is refilled for every run: the same
+// *bt.Tx, the same *bt.Input for the checked input, the same *bscript.Script objects for the
+// unlocking and the locking script (their bytes live in two work buffers that keep their first
+// element's address as long as the program fits), the same *bt.Output for the spent output.
+// Whatever the library remembers about an object or a slice by identity goes stale here.
+type Reuse struct {
+	tx       *bt.Tx
+	in       *bt.Input
+	us, ls   *bscript.Script
+	ub, lb   []byte
+	prev     *bt.Output
+	Refilled int // runs that found the objects already in place
+}
+
+func refill(buf *[]byte, b []byte) []byte {
+	if cap(*buf) < len(b) || *buf == nil {
+		*buf = make([]byte, 0, 2*len(b)+64)
+	}
+	*buf = append((*buf)[:0], b...)
+	return (*buf)[:len(b):len(b)]
+}
+
+// RunModelOn is RunModelOn with the reused objects.
+func (r *Reuse) RunModelOn(eng interpreter.Engine, m ref.Tx, idx int, lock []byte, amount uint64, flags interp.Flags, dbg interpreter.Debugger) (out Outcome) {
+	fresh := ref.ToLib(m)
+	if r.tx == nil {
+		r.tx, r.in, r.us, r.ls, r.prev = &bt.Tx{}, &bt.Input{}, &bscript.Script{}, &bscript.Script{}, &bt.Output{}
+	} else {
+		r.Refilled++
+	}
+	*r.tx = *fresh
+	if idx >= 0 && idx < len(r.tx.Inputs) {
+		*r.in = *fresh.Inputs[idx]
+		if r.in.UnlockingScript != nil {
+			*r.us = refill(&r.ub, *fresh.Inputs[idx].UnlockingScript)
+			r.in.UnlockingScript = r.us
+		}
+		r.tx.Inputs[idx] = r.in
+	}
+	*r.ls = refill(&r.lb, lock)
+	r.prev.Satoshis, r.prev.LockingScript = amount, r.ls
+	tx, prev := r.tx, r.prev
+	defer func() {
+		if out.Damage = ref.CanaryDamage(tx); out.Damage == "" && (prev.LockingScript != r.ls || !bytes.Equal(*r.ls, lock)) {
+			out.Damage = "the spent output's locking script handed to Execute was changed"
+		}
+	}()
+	opts := append([]interpreter.ExecutionOptionFunc{interpreter.WithTx(tx, idx, prev)}, FlagOpts(flags, len(lock)+len(m.In)+int(flags))...)
+	if dbg != nil {
+		opts = append(opts, interpreter.WithDebugger(dbg))
+	}
+	defer func() {
+		if x := recover(); x != nil {
+			if be, ok := x.(BudgetExceeded); ok {
+				out.Budget = be.Why
+			} else {
+				out.Panic = fmt.Sprintf("%v\n%s", x, debug.Stack())
+			}
+		}
+		switch r := dbg.(type) {
+		case *Recorder:
+			out.Steps, out.Recorder = r.Steps, r
+		case *Budget:
+			out.Steps, out.Recorder = r.Steps, &r.Recorder
+		}
+	}()
+	out.Err = eng.Execute(opts...)
+	return out
+}
+
+// RunOn is RunOn with the reused objects.
+func (r *Reuse) RunOn(eng interpreter.Engine, unlock, lock []byte, flags interp.Flags, c TxCtx, dbg interpreter.Debugger) Outcome {
+	return r.RunModelOn(eng, c.Model(unlock, lock), 0, lock, c.Amount, flags, dbg)
 }
